@@ -96,7 +96,7 @@ func runC06(c c06Case, r *rep.Report) (key, msg string, stats map[string]int64) 
 				so.SetCookie(&http.Cookie{Name: "io", Path: "/"})
 			}
 			w := rig.NewWorld(rig.Options{Server: so})
-			defer w.Shutdown()
+			defer w.Finish()
 			enabled := map[string]bool{}
 			for _, t := range c.Transports {
 				enabled[t] = true
